@@ -146,6 +146,20 @@ Definition merge_markers {A} (chunk : Z -> list A) (keys_in : list Z) : list A :
 Definition read_keyed {A} (parents : list Z) (filled : list (Z * A)) : list (option A) :=
   map (fun p => zassoc p (rev filled)) parents.
 
+(* select_all_markers returns {parent: output_dict[parent] for parent in parent_list} (and the log
+   the same way): the dict handed to the caller -- whose key order is the order of the entries of
+   the query-marker JSON file -- lists the parents in the order of parent_list, whatever the order
+   in which the workers filled output_dict; a parent nobody filled is a KeyError (None) *)
+Fixpoint selection_result {A} (parents : list Z) (filled : list (Z * A)) : option (list (Z * A)) :=
+  match parents with
+  | [] => Some []
+  | p :: ps =>
+      match zassoc p (rev filled), selection_result ps filled with
+      | Some v, Some l => Some ((p, v) :: l)
+      | _, _ => None
+      end
+  end.
+
 (* ------------------------------------------------------------------ wire *)
 Definition of_record (r : Z * Z) : sx := L [I (fst r); I (snd r)].
 
@@ -211,6 +225,18 @@ Definition run_merge_order (x : sx) : sx :=
   match sx_LZ x with
   | Some ks => sx_ok (of_LZ (merge_markers (fun z => [z]) ks))
   | None => sx_bad
+  end.
+
+(* input: (parent_list ((parent value) ... in the order in which output_dict was filled))
+   output: option ((parent value) ... in the order of the returned dict) *)
+Definition run_selection_result (x : sx) : sx :=
+  match x with
+  | L [ps; fl] =>
+      match sx_LZ ps, sx_list sx_rec fl with
+      | Some ps, Some fl => sx_ok (of_option (of_list of_record) (selection_result ps fl))
+      | _, _ => sx_bad
+      end
+  | _ => sx_bad
   end.
 
 (* input: (n k codes durs) -> option (the order in which the per-worker partial results are
